@@ -461,4 +461,12 @@ def rule_outer_loop(ctx):
     _report_obligations(ctx, R, I, "BodyReader::read_chunked")
 
 
-RULES = [rule_transitions, rule_data_bounds, rule_predicates, rule_size_line, rule_crlf_finder, rule_outer_loop]
+def rule_call_layer(ctx):
+    """the decoder's counts and its `ended` are what the caller sees: BodyReader::is_ended(Chunked) <=> decoder state Ended
+    (R08.3) and the call / flow layer forward one reader call unchanged (R08.5)"""
+    from . import rules_bodies
+    rules_bodies.rule_c08_completion(ctx)
+    rules_bodies.rule_read_forwarding(ctx)
+
+
+RULES = [rule_transitions, rule_data_bounds, rule_predicates, rule_size_line, rule_crlf_finder, rule_outer_loop, rule_call_layer]
